@@ -686,7 +686,7 @@ func (vc *FnVC) doReturn(r *ssa.Return) {
 	}
 	vc.cover("exit-reachable", "return")
 	vc.checkFreshObjs(r.Block())
-	vc.checkTouched()
+	vc.checkTouched(r.Block())
 	if vc.con != nil {
 		for i, c := range vc.con.Ensures {
 			var parts []string
